@@ -7,7 +7,7 @@
     norm ks  = ks with a sequence index i read as the int key i (Python prints both as root[i]) *)
 From Coq Require Import List ZArith NArith Bool.
 Import ListNotations.
-From DD Require Import Base.PyStr Base.Value Path.PathModel Path.PathLex Path.PathProofs.
+From DD Require Import Base.PyStr Base.Value Path.PathModel Path.PathLex Path.PathProofs Path.PathTight.
 
 (* --- parse_path returns exactly the key sequence with the original key types ---------- *)
 (* full strength (every key sequence) is false of the faithful model: *)
@@ -83,6 +83,30 @@ Theorem C09_render_inj_partial :
     render ks1 = render ks2 -> norm ks1 = norm ks2.
 Proof. exact render_inj. Qed.
 
+(* --- the guard on str keys is necessary, and exact outside the overlap of the two defects -- *)
+(* K6 for every such key: the parser returns the bracket text with its quotes and "]" *)
+Theorem C09_guard_necessary_escape_char :
+  forall s' : pystr, let s := s' ++ [cESC] in
+    has_char cSQ s && has_char cDQ s = false ->
+    parse (render [PKey (AStr s)]) <> Some [PKey (AStr s)].
+Proof. exact escape_last_fails. Qed.
+
+(* K5 for every such key *)
+Theorem C09_guard_necessary_both_quotes :
+  forall s : pystr, has_char cSQ s = true -> has_char cDQ s = true -> has_char cESC s = false ->
+    parse (render [PKey (AStr s)]) <> Some [PKey (AStr s)].
+Proof. exact both_quotes_fails. Qed.
+
+Theorem C09_guard_exact_no_escape_char :
+  forall s : pystr, has_char cESC s = false ->
+    (parse (render [PKey (AStr s)]) = Some [PKey (AStr s)] <-> str_ok s = true).
+Proof. exact guard_exact_no_esc. Qed.
+
+Theorem C09_guard_exact_one_quote_kind :
+  forall s : pystr, has_char cSQ s && has_char cDQ s = false ->
+    (parse (render [PKey (AStr s)]) = Some [PKey (AStr s)] <-> str_ok s = true).
+Proof. exact guard_exact_one_quote_kind. Qed.
+
 (* --- the guard is satisfiable by hostile keys ------------------------------------------ *)
 Example C09_guard_satisfiable : path_ok hostile_path = true /\ List.length hostile_path = 9%nat.
 Proof. split; reflexivity. Qed.
@@ -102,3 +126,7 @@ Print Assumptions C09_stringify_inverts_parse_partial.
 Print Assumptions C09_parse_stringify_partial.
 Print Assumptions C09_stringify_is_render.
 Print Assumptions C09_render_inj_partial.
+Print Assumptions C09_guard_necessary_escape_char.
+Print Assumptions C09_guard_necessary_both_quotes.
+Print Assumptions C09_guard_exact_no_escape_char.
+Print Assumptions C09_guard_exact_one_quote_kind.
